@@ -28,7 +28,7 @@ ASSUMPTIONS = [
     'classes live in an importable synthetic module so that pickle can find them',
     'watchers whose callback is a method of an unrelated third object are not generated',
 ]
-REQUIRED = {'copies': 1200, 'divergence_ops': 5000, 'copies_with_subobject': 400, 'pickle_copies': 800}
+REQUIRED = {'copies': 1200, 'divergence_ops': 5000, 'copies_with_subobject': 400, 'pickle_copies': 800, 'slot_only_subobject_dependency_cases': 100}
 
 MOD = 'pvgen_c17'
 _st = {}
@@ -53,7 +53,7 @@ def setup(P):
         items = param.List(default=[1])
         owner = param.Parameter(default=None)       # optional back-reference to the object that holds this one
 
-    class Obj(param.Parameterized):
+    class ObjMin(param.Parameterized):
         a = param.Number(default=1.0, bounds=(-1e9, 1e9))
         s = param.String(default='s')
         l = param.List(default=[1, 2])
@@ -72,14 +72,6 @@ def setup(P):
         def m_own(self):
             self.__dict__.setdefault('calls', []).append('m_own')
 
-        @param.depends('sub.x', 'sub.y', watch=True)
-        def m_sub(self):
-            self.__dict__.setdefault('calls', []).append('m_sub')
-
-        @param.depends('sub.b.y', 'other.x', watch=True)
-        def m_deep(self):
-            self.__dict__.setdefault('calls', []).append('m_deep')
-
         @param.depends('sub.x:bounds', watch=True)
         def m_subslot(self):
             self.__dict__.setdefault('calls', []).append('m_subslot')
@@ -94,14 +86,24 @@ def setup(P):
         def on_as(self, *events):
             self.__dict__.setdefault('calls', []).append('on_as')
 
+    class Obj(ObjMin):
+        """ObjMin depends on its sub-object only through a Parameter attribute of it; this one also through values"""
+        @param.depends('sub.x', 'sub.y', watch=True)
+        def m_sub(self):
+            self.__dict__.setdefault('calls', []).append('m_sub')
+
+        @param.depends('sub.b.y', 'other.x', watch=True)
+        def m_deep(self):
+            self.__dict__.setdefault('calls', []).append('m_deep')
+
     class ObjSlots(Obj):
         __slots__ = ['history', 'tag']
 
-    for c in (Sub, Obj, ObjSlots):
+    for c in (Sub, ObjMin, Obj, ObjSlots):
         c.__module__ = MOD
         c.__qualname__ = c.__name__
         setattr(mod, c.__name__, c)
-    _st.update(Sub=Sub, Obj=Obj, ObjSlots=ObjSlots)
+    _st.update(Sub=Sub, Obj=Obj, ObjSlots=ObjSlots, ObjMin=ObjMin)
 
 
 def mutable_ids(o, acc=None, depth=0):
@@ -165,6 +167,9 @@ def run_case(idx, rng, P, rep):
     param = _st['param']
     Sub, Obj, ObjSlots = _st['Sub'], _st['Obj'], _st['ObjSlots']
     cls = ObjSlots if rng.random() < 0.3 else Obj
+    if rng.random() < 0.15:
+        cls = _st['ObjMin']
+        rep.count('slot_only_subobject_dependency_cases')
     o = cls(a=tokv()) if rng.random() < 0.5 else cls()
     hist = []
     flags = dict(sub=False, meta=False, mut=False)
@@ -345,7 +350,9 @@ def run_case(idx, rng, P, rep):
             viol(f'not-independent/{"calls" if diff == [("attr", "calls")] else diff[0][0]}', f'{mech}: {kind} on the {side} changed the other '
                  f'object: {diff}')
         got = obj.calls[n_calls:]
-        if replaced and (got.count('m_sub') != 1 or got.count('m_deep') > 1 or got.count('m_subslot') > 1 or set(got) - {'m_sub', 'm_deep', 'm_subslot'}):
+        if expect is not None:
+            expect = [e for e in expect if hasattr(cls, e)]
+        if replaced and (got.count('m_sub') != int(hasattr(cls, 'm_sub')) or got.count('m_deep') > 1 or got.count('m_subslot') > 1 or set(got) - {'m_sub', 'm_deep', 'm_subslot'}):
             viol(f'dependency-not-working-on-{side}/{kind}', f'{mech}: after {kind} on the {side} its dependent methods ran {got}, expected m_sub once '
                  f'and m_deep at most once')
         if expect is not None and sorted(got) != sorted(expect):
